@@ -9,7 +9,7 @@ For every mutant bin/mutgen enumerates in /repo's non-test sources:
      (mutants-auto/propcov.json), cheapest first, and stop at the first VIOLATION.
 Results are appended to mutants-auto/results.jsonl (resumable: ids already present are skipped).
 
-usage: mutcampaign.py [--repo-rev <commit>] [--workers 5] [--ids 1,2,3] [--ops binop,lit+1] [--files a.go,b.go] [--sample N] [--all-props] [--redo-survivors]
+usage: mutcampaign.py [--repo-rev <commit>] [--keys followup.json] [--workers 5] [--ids 1,2,3] [--ops binop,lit+1] [--files a.go,b.go] [--sample N] [--all-props] [--redo-survivors]
 """
 import os, sys, json, subprocess, shutil, time, random, threading
 from concurrent.futures import ThreadPoolExecutor
@@ -132,7 +132,7 @@ def run_one(m, w, cov, all_props):
 
 def main():
     args = sys.argv[1:]
-    workers, ids, ops, files, sample, all_props, redo = 5, None, None, None, None, False, False
+    workers, ids, ops, files, sample, all_props, redo, keys = 5, None, None, None, None, False, False, None
     while args:
         a = args.pop(0)
         if a == "--workers": workers = int(args.pop(0))
@@ -142,6 +142,7 @@ def main():
         elif a == "--sample": sample = int(args.pop(0))
         elif a == "--all-props": all_props = True
         elif a == "--redo-survivors": redo = True
+        elif a == "--keys": keys = json.load(open(args.pop(0)))
         elif a == "--repo-rev":
             global REV
             REV = args.pop(0)
@@ -157,7 +158,17 @@ def main():
             if r.get("base") == base:
                 done[r["id"]] = r
     todo = []
-    for m in ms:
+    if keys is not None:
+        # follow-up of earlier survivors on the current tree: {key on this tree: key in the earlier run}
+        for m in ms:
+            k = f"{m['file']}:{m['line']}:{m['col']}:{m['op']}:{m['repl']}"
+            if k in keys:
+                m["followup_of"] = keys[k]
+                todo.append(m)
+        ms_iter = []
+    else:
+        ms_iter = ms
+    for m in ms_iter:
         if ids is not None and m["id"] not in ids: continue
         if ops is not None and m["op"] not in ops: continue
         if files is not None and m["file"] not in files: continue
